@@ -178,103 +178,91 @@ def recvCells (m : Mode) (rc : Recv) (data : List Nat) : Res (List Nat) := do
   let rows ← a.rows.collect (a.rows.v.len + 2)
   pure (rows.map (readWin data)).flatten
 
-/-- in-place operations: every one goes through the Impl-model's dispatch `Recv.run` (Impl/Recv.lean) -/
-def stepInplace (cx : Ctx) (rc : Recv) (op : String) (args : List String) (robs : Option RObs) : Option MOut :=
-  let m := cx.m
-  let data := cx.prev.data
-  let run (mop : MOp Nat) : Res (List Nat) := rc.run m sideLimit data mop
-  let fin (r : Res (List Nat)) : MOut :=
-    match r with
-    | .ok d => { cx.same with data := d }
-    | .error e => cx.fail e
-  let le8 (a b : Nat) : Bool := a % 8 ≤ b % 8
-  let leNat (a b : Nat) : Bool := a ≤ b
-  if !rc.isMut then (if op ∈ ["fill","swap","swap_rows","swap_cols","row_pair","copy_from_slice","clone_from_slice",
-      "copy_from_toodee","clone_from_toodee","copy_within","translate","flip_rows","flip_cols"] ∨ op.startsWith "sort_" then some cx.badOp else none)
-  else
+def le8 (a b : Nat) : Bool := a % 8 ≤ b % 8
+def leNat (a b : Nat) : Bool := a ≤ b
+
+/-- the comparator the harness passes to a sort op: natural order for `*_ord`, `val % 8` (as comparator or as key) otherwise -/
+def sortLe (op : String) : Nat → Nat → Bool := if op.endsWith "_ord" then leNat else le8
+
+/-- an in-place op line as a model operation (shared by the Impl-model's prediction `M` and the property oracle `S`);
+    `side` = what the side sort of a sort op does (stable sort / reconstructed permutation / caller-code panic) -/
+def parseMOp (cx : Ctx) (op : String) (args : List String) (side : SideSort Nat) : Option (MOp Nat) :=
   match op, args with
-  | "fill", [v] => do
-    let v ← nat? v
-    let v := cx.v v
-    match rc with
-    | .root _ =>
-      match run (.fill v) with
-      | .ok d => pure { cx.same with data := d, drops := cx.dr (data ++ (if data.isEmpty then [v] else [])) }
-      | .error e => pure (cx.fail e)
-    | _ =>
-      match (do let d ← run (.fill v); let old ← recvCells m rc data; pure (d, old) : Res (List Nat × List Nat)) with
-      | .ok (d, old) => pure { cx.same with data := d, drops := cx.dr (old ++ [v]) }
-      | .error e => pure (cx.fail e)
+  | "fill", [v] => do let v ← nat? v; pure (.fill (cx.v v))
   | "swap", [c1, r1, c2, r2] => do
     let c1 ← nat? c1; let r1 ← nat? r1; let c2 ← nat? c2; let r2 ← nat? r2
-    pure (fin (run (.swap c1 r1 c2 r2)))
-  | "swap_rows", [r1, r2] => do
-    let r1 ← nat? r1; let r2 ← nat? r2
-    pure (fin (run (.swapRows r1 r2)))
-  | "swap_cols", [c1, c2] => do
-    let c1 ← nat? c1; let c2 ← nat? c2
-    pure (fin (run (.swapCols c1 c2)))
-  | "row_pair", [r1, r2] => do
-    let r1 ← nat? r1; let r2 ← nat? r2
-    match (do let a ← rc.acc m; a.rowPairMut m r1 r2 : Res (Win × Win)) with
-    | .ok (w1, w2) =>
-      let d := bump (bump data w1.positions 1000) w2.positions 2000
-      pure { cx.same with toks := [winTok cx w1, winTok cx w2], data := d }
-    | .error e => pure (cx.fail e)
-  | "copy_from_slice", [l] | "clone_from_slice", [l] => do
-    let l ← parseList l
-    let l := cx.vs l
-    if op = "copy_from_slice" ∧ cx.elem ≠ .u32 then pure { cx.same with status := "unsupported" } else
-    match run (.copyFromSlice l) with
-    | .ok d =>
-      -- clone_from_slice: every destination cell is replaced by a clone (old one dropped); the source vec is dropped afterwards
-      pure { cx.same with data := d, drops := cx.dr (((recvCells m rc data).toOption.getD []) ++ l) }
-    | .error e => pure { cx.fail e with drops := cx.dr l }
+    pure (.swap c1 r1 c2 r2)
+  | "swap_rows", [r1, r2] => do let r1 ← nat? r1; let r2 ← nat? r2; pure (.swapRows r1 r2)
+  | "swap_cols", [c1, c2] => do let c1 ← nat? c1; let c2 ← nat? c2; pure (.swapCols c1 c2)
+  | "copy_from_slice", [l] | "clone_from_slice", [l] => do let l ← parseList l; pure (.copyFromSlice (cx.vs l))
   | "copy_within", [c0, r0, c1, r1, dc, dr] => do
     let c0 ← nat? c0; let r0 ← nat? r0; let c1 ← nat? c1; let r1 ← nat? r1; let dc ← nat? dc; let dr ← nat? dr
-    if cx.elem ≠ .u32 then pure { cx.same with status := "unsupported" } else
-    pure (fin (run (.copyWithin (c0, r0) (c1, r1) (dc, dr))))
-  | "translate", [mc, mr] => do
-    let mc ← nat? mc; let mr ← nat? mr
-    pure (fin (run (.translate mc mr)))
-  | "flip_rows", [] => pure (fin (run .flipRows))
-  | "flip_cols", [] => pure (fin (run .flipCols))
+    pure (.copyWithin (c0, r0) (c1, r1) (dc, dr))
+  | "translate", [mc, mr] => do let mc ← nat? mc; let mr ← nat? mr; pure (.translate mc mr)
+  | "flip_rows", [] => pure .flipRows
+  | "flip_cols", [] => pure .flipCols
   | _, _ =>
-    -- copy_from_toodee C R list [c0 r0 c1 r1]
     if op = "copy_from_toodee" ∨ op = "clone_from_toodee" then
+      -- copy_from_toodee C R list [c0 r0 c1 r1]
       match args with
       | c :: r :: l :: rest => do
         let c ← nat? c; let r ← nat? r; let l ← parseList l
-        let l := cx.vs l
-        if op = "copy_from_toodee" ∧ cx.elem ≠ .u32 then pure { cx.same with status := "unsupported" } else
-        let src : CopySrc Nat :=
-          { arr := ⟨l, r, c⟩,
+        pure (.copyFromTooDee
+          { arr := ⟨cx.vs l, r, c⟩,
             window := match rest.mapM nat? with
               | some [c0, r0, c1, r1] => some ((c0, r0), (c1, r1))
-              | _ => none }
-        match run (.copyFromTooDee src) with
-        | .ok d => pure { cx.same with data := d, drops := cx.dr (((recvCells m rc data).toOption.getD []) ++ l) }
-        | .error e => pure { cx.fail e with drops := cx.dr l }
+              | _ => none })
       | _ => none
     else if op.startsWith "sort_" then
       match args with
       | [k] => do
         let k ← nat? k
-        let le := if op.endsWith "_ord" then leNat else le8
-        let byRow := (op.splitOn "_row").length > 1
-        let unstable := op.startsWith "sort_unstable"
-        if !unstable then
-          -- a comparator / key function made to panic (`!cmp:k`, `!key:k`): whether the side sort reaches its `k`-th call is
-          -- std's business, so the outcome of the side sort is a model input taken from the harness's observation
-          let side : SideSort Nat :=
-            match cx.fault, robs.map (·.status) with
-            | true, some "panic" => fun _ => throw .panic
-            | _, _ => sideStable le
-          if byRow then pure (fin (run (.sortRow side k))) else pure (fin (run (.sortCol side k)))
-        else
-          -- unstable: the side sort's permutation is a model input reconstructed from the harness's observation (Run.lean)
-          none
+        if (op.splitOn "_row").length > 1 then pure (.sortRow side k) else pure (.sortCol side k)
       | _ => none
     else none
+
+/-- in-place operations: every one goes through the Impl-model's dispatch `Recv.run` (Impl/Recv.lean) -/
+def stepInplace (cx : Ctx) (rc : Recv) (op : String) (args : List String) (robs : Option RObs) : Option MOut :=
+  let m := cx.m
+  let data := cx.prev.data
+  if !rc.isMut then (if op ∈ ["fill","swap","swap_rows","swap_cols","row_pair","copy_from_slice","clone_from_slice",
+      "copy_from_toodee","clone_from_toodee","copy_within","translate","flip_rows","flip_cols"] ∨ op.startsWith "sort_" then some cx.badOp else none)
+  else if op = "row_pair" then
+    match args with
+    | [r1, r2] => do
+      let r1 ← nat? r1; let r2 ← nat? r2
+      match (do let a ← rc.acc m; a.rowPairMut m r1 r2 : Res (Win × Win)) with
+      | .ok (w1, w2) =>
+        let d := bump (bump data w1.positions 1000) w2.positions 2000
+        pure { cx.same with toks := [winTok cx w1, winTok cx w2], data := d }
+      | .error e => pure (cx.fail e)
+    | _ => none
+  else if op.startsWith "sort_unstable" then none      -- the permutation is a model input: `stepUnstable` (Run.lean)
+  else if (op ∈ ["copy_from_slice", "copy_from_toodee", "copy_within"]) ∧ cx.elem ≠ .u32 then
+    some { cx.same with status := "unsupported" }        -- `T: Copy` only
+  else
+    -- a comparator / key function made to panic (`!cmp:k`, `!key:k`): whether the side sort reaches its `k`-th call is std's
+    -- business, so the outcome of the side sort is a model input taken from the harness's observation
+    let side : SideSort Nat :=
+      match cx.fault, robs.map (·.status) with
+      | true, some "panic" => fun _ => throw .panic
+      | _, _ => sideStable (sortLe op)
+    match parseMOp cx op args side with
+    | none => none
+    | some mop =>
+      let r := rc.run m sideLimit data mop
+      let old := (recvCells m rc data).toOption.getD []
+      -- elements created / dropped besides the moves: clones written over old cells, the source dropped afterwards
+      let drops : List Nat :=
+        match mop, r with
+        | .fill v, .ok _ => if rc.isRoot then data ++ (if data.isEmpty then [v] else []) else old ++ [v]
+        | .copyFromSlice l, .ok _ => old ++ l
+        | .copyFromSlice l, .error _ => l
+        | .copyFromTooDee src, .ok _ => old ++ src.arr.data
+        | .copyFromTooDee src, .error _ => src.arr.data
+        | _, _ => []
+      match r with
+      | .ok d => some { cx.same with data := d, drops := cx.dr drops }
+      | .error e => some { cx.fail e with drops := cx.dr drops }
 
 end Toodee.Driver
